@@ -125,6 +125,8 @@ def check_miter(acc, d0, d1, sp_arg, ep_arg, label, solve_too=True):
     if ep_arg:
         kw["endpoints"] = set(ep_arg)
     try:
+        if label == "copy" and sp_arg is None and ep_arg is None:
+            cg.tx.miter(c0, c1)  # an earlier call on the same objects must not matter
         m = cg.tx.miter(c0, c1, **kw) if c1 is not None else cg.tx.miter(c0, **kw)
     except Exception as e:  # noqa: BLE001
         acc.violation("miter", f"miter-raises:{common.exc_name(e)}", case, repr(e))
@@ -177,6 +179,8 @@ def c0_space(tier):
             yield space.to_desc(I, gates, outputs="gates", name="c0")
     for gates in space.circuits(1, 2, types=("and", "xor", "not"), max_arity=2, consts=("0", "1"), min_gates=2):
         yield space.to_desc(1, gates, consts=("0", "1"), outputs="gates", name="c0")
+    for gates in space.circuits(0, 2, types=("and", "xor", "not"), max_arity=2, consts=("0", "1"), min_gates=1):
+        yield space.to_desc(0, gates, consts=("0", "1"), outputs="gates", name="c0")   # no primary input at all
     I, G = b["feedthrough"]
     for gates in space.circuits(I, G, max_arity=2, min_gates=1):
         yield space.to_desc(I, gates, outputs="all", name="c0")
